@@ -65,6 +65,9 @@ def cases(rng, tier):
         for h in rng.sample(hdrs, 14) + [None, "Basic " + b64(b"basic:sb"), "Basic " + b64(b"basic:no")]:
             for f in rng.sample(forms, 5) + [{}]:
                 out.append({"op": "endpoint", "endpoint": ep, "header": h, "form": f})
+                if ep in ("revocation", "introspection"):
+                    # … or carries an unsupported token_type_hint
+                    out.append({"op": "endpoint", "endpoint": ep, "header": h, "form": f, "bad_hint": True})
                 if ep in ("device_authorization", "token:client_credentials", "token:password"):
                     # the request also asks for a scope the server does not support: an unauthenticated request is still answered invalid_client
                     out.append({"op": "endpoint", "endpoint": ep, "header": h, "form": f, "bad_scope": True})
@@ -247,6 +250,8 @@ def impl_endpoint(c, store, srv):
     form = dict(EP_FORM[ep]); form.update(c["form"])
     if c.get("bad_scope"):
         form["scope"] = "zzz"
+    if c.get("bad_hint"):
+        form["token_type_hint"] = "bogus_token_type"
     req = Req("POST", "https://as.example/ep", form, headers)
     try:
         if ep.startswith("token"):
